@@ -87,13 +87,6 @@ Proof.
 Qed.
 
 (* ---- the loop never spins ---- *)
-(* a parser makes progress when every result other than PClose leaves strictly fewer bytes *)
-Definition progresses (p : bytes -> pout) : Prop :=
-  forall s, match fst (p s) with
-            | PDone _ rest | PClientErr _ rest => (length rest < length s)%nat
-            | PClose => True
-            end.
-
 Lemma serve_loop_total p : progresses p ->
   forall fuel s, (length s < fuel)%nat -> exists l, serve_loop p fuel s = Some l.
 Proof.
@@ -109,9 +102,6 @@ Qed.
 Lemma serve_total p : progresses p -> forall s, exists l, serve p s = Some l.
 Proof. intros P s. apply serve_loop_total; [exact P | lia]. Qed.
 
-(* the last step of every run closes the connection *)
-Definition closes (st : sstep) : bool :=
-  match st with SClose => true | SReq (RQuit _ _) => true | _ => false end.
 Lemma serve_loop_ends p : forall fuel s l, serve_loop p fuel s = Some l ->
   exists l' x n tr, l = l' ++ [(x, n, tr)] /\ closes x = true.
 Proof.
@@ -139,3 +129,22 @@ Proof.
   - apply N.eqb_eq in E. subst b. reflexivity.
   - destruct ((97 <=? b) && (b <=? 122)); reflexivity.
 Qed.
+
+Lemma select_first_byte :
+  select_proto default_protocols magicRequest = Some Bin /\
+  (forall b, 97 <= b <= 122 -> select_proto default_protocols b = Some Text) /\
+  (forall b, b <> magicRequest -> select_proto default_protocols b = Some Text).
+Proof.
+  split; [reflexivity|]. split; intros b H; rewrite select_default.
+  - destruct (b =? magicRequest) eqn:E; [|reflexivity].
+    apply N.eqb_eq in E. rewrite E in H. vm_compute in H. destruct H as [_ H]. exfalso. apply H. reflexivity.
+  - destruct (b =? magicRequest) eqn:E; [|reflexivity]. apply N.eqb_eq in E. contradiction.
+Qed.
+
+(* decoding depends on the concatenation of the segments only *)
+Lemma parse_all_resegmented (p : bytes -> pout) (enc : req -> bytes) (wf : req -> bool) :
+  (forall r rest, wf r = true -> fst (p (enc r ++ rest)) = PDone r rest) ->
+  (forall r, wf r = true -> enc r <> []) ->
+  forall rs (segs : list bytes), forallb wf rs = true -> concat segs = concat (map enc rs) ->
+  parse_all p (concat segs) = Some rs.
+Proof. intros RT NE rs segs W E. rewrite E. apply (parse_all_roundtrip p enc wf RT NE rs W). Qed.
